@@ -13,6 +13,7 @@ type muxSeqOpts struct {
 	query      bool // append a query string to playlist requests
 	checkDelta bool // also fetch and check the delta update at every playlist change (Low-Latency)
 	onWrite    func(w *muxWorld, cl *writeCall)
+	goOn       bool // a Write that returns an error does not end the run: the application keeps writing
 }
 
 func runMuxSeq(r *Run, o *muxSeqOpts) {
@@ -40,6 +41,13 @@ func runMuxSeq(r *Run, o *muxSeqOpts) {
 		if cl.err != nil {
 			r.Tracef("write %d track %d (%s) pts=%d: error %v", cl.idx, cl.track.id, cl.track.kind, cl.pts, cl.err)
 			r.Probe("write-error")
+			if o.goOn {
+				if o.onWrite != nil {
+					o.onWrite(w, cl)
+				}
+				w.obs.observe()
+				continue
+			}
 			w.errCall = cl
 			w.next-- // the failed call is not part of the accepted history
 			w.script = w.script[:w.next]
@@ -231,9 +239,34 @@ func scC18(big bool) Scenario {
 	}
 }
 
+// scC18GoOn: the application keeps writing after Write calls that return an error (a sample beyond SegmentMaxSize,
+// a rotation that cannot produce its init section because the stream never carries a PPS): whatever the muxer
+// then publishes, the retention bounds hold.
+func scC18GoOn(r *Run) {
+	g := muxGen{variants: allVariants, minCalls: 100, maxCalls: 900, fastRotation: true, bigPayloads: r.T.Chance(1, 2), forceVideo: true}
+	if !g.bigPayloads || r.T.Chance(1, 2) {
+		g.noPPS = true
+	}
+	runMuxSeq(r, &muxSeqOpts{
+		gen:  g,
+		goOn: true,
+		onWrite: func(w *muxWorld, cl *writeCall) {
+			w.obs.boundsAtRest(r)
+		},
+		oracle: func(w *muxWorld) {
+			w.obs.reportProblems(r, "grammar", "blocked")
+			if !r.Failed() {
+				w.obs.boundsAtRest(r)
+			}
+		},
+	})
+}
+
 func init() {
-	register(&PropDef{ID: "C18", Quick: 400, Thorough: 20000, Profiles: []ProfileDef{
-		{Name: "long", Share: 1, Sc: scC18(false)},
-		{Name: "size", Share: 1, Sc: scC18(true)},
+	register(&PropDef{ID: "C18", Quick: 600, Thorough: 30000, Profiles: []ProfileDef{
+		{Name: "long", Share: 2, Sc: scC18(false)},
+		{Name: "size", Share: 2, Sc: scC18(true)},
+		{Name: "held", Share: 1, Sc: scC18Held},
+		{Name: "go-on", Share: 1, Sc: scC18GoOn},
 	}})
 }
